@@ -4,6 +4,11 @@ import json, os, sys
 ROOT = os.path.dirname(os.path.dirname(os.path.abspath(__file__)))
 
 CHECKS = {
+ "C19": ("exploration",
+         "differential testing across three build profiles of one harness binary over integer-indexed input streams (stratified 2^24 sample / all 2^32 bit patterns for unary ops; specials grid + seeded tuples for n-ary ops), digest comparison with bisection to the minimal input; single-build invariant checks (canonical closure, odd/even symmetry, range)",
+         "Every public scalar/trig/fixed-point/PRNG/vector/quaternion/matrix operation is evaluated in dev (opt 0 + debug assertions), release (opt 3) and the repo's size-optimised release profile; output bit patterns must agree on every input and no profile may panic on a finite in-domain input; every F32Scalar result must be canonical (+0, no subnormal, canonical NaN), sin exactly odd, cos exactly even, both in [-1,1]. Thorough tier is exhaustive over all 2^32 inputs for unary operations.",
+         "x86-64 only. Vec3/Quat/Mat4 inputs restricted to their documented finite domain with |x| < 2^40 (no overflowing intermediates); non-finite inputs to debug-asserting functions are tallied, not judged.",
+         "DESIGN.md §4 C19"),
  "C12": ("exploration",
          "property-based testing (proptest) of round-trip laws over generated values; exhaustive enumeration of all byte strings <=3 bytes; structure-aware CBOR mutation and byte-level mutation of valid encodings against the accepted-implies-canonical oracle",
          "Law A (decode(encode(v)) = normal form, deterministic encoder) over generated values of each codec's domain and Law B (accepted bytes re-encode to themselves) over every byte string up to 3 bytes (CBOR value codecs) / 2 bytes (all canonical-form codecs), structure-aware mutants and byte mutants of encoder-produced seeds for 19 canonical-form codecs; round-trip-only group checked on accepted mutants. Exploration beyond the exhaustive short strings.",
